@@ -2,4 +2,4 @@
 From Coq Require Import ExtrOcamlBasic ZArith.
 From ZV Require Import Migrate.Model.
 Extraction Language OCaml.
-Extraction "model.ml" Z.of_N N.of_nat Nat.add init_state step run isr is_quorum all_ready.
+Extraction "model.ml" Z.of_N N.of_nat Nat.add init_state step run isr is_quorum all_ready create_namespace.
